@@ -233,9 +233,12 @@ def _diff(
         except FileNotFoundError:
             # NOTE: if `path` exists but could not be scanned (e.g. there is a
             # broken symlink in it), we don't know what it holds, so we can't
-            # treat it as empty unless we are allowed to overwrite it anyway.
-            if not force and fs.exists(path):
-                raise
+            # treat it as empty unless we are allowed to overwrite it anyway -
+            # and then it has to go, or whatever was not scanned would stay.
+            if fs.exists(path):
+                if not force:
+                    raise
+                fs.remove(path)
 
     diff = odiff(old, obj, cache)
     if relink:
